@@ -504,7 +504,10 @@ class _Flattener:
         except AttributeError:
             # h5netcdf
             dims = {}
-            dimension_names = list(variable.dimensions)
+            # A set, so that a name is no longer looked for once it
+            # has been found - also when the variable spans that
+            # dimension more than once
+            dimension_names = set(variable.dimensions)
             group = variable._parent
             for name, dim in group.dims.items():
                 if name in dimension_names:
